@@ -656,6 +656,59 @@ services:
     environment: {HOST: from-c}
 `
 
+// entries of keyed lists stated twice, once in each spelling (the second statement of an entry says nothing new)
+const corpusRestated = `
+services:
+  r:
+    image: r
+    ports:
+      - "8080:80"
+      - {target: 80, published: "8080"}
+      - "127.0.0.1:9000:9000/udp"
+      - {target: 9000, published: "9000", host_ip: 127.0.0.1, protocol: udp}
+    volumes:
+      - data:/d
+      - {type: volume, source: data, target: /d}
+    secrets:
+      - sec
+      - {source: sec}
+    configs:
+      - cfg
+      - {source: cfg}
+    env_file:
+      - ./e.env
+      - {path: ./e.env}
+    expose: ["3000", 3000]
+    dns: [1.1.1.1, 1.1.1.1]
+    cap_add: [NET_ADMIN, NET_ADMIN]
+volumes: {data: {}}
+secrets: {sec: {file: ./s}}
+configs: {cfg: {content: c}}
+`
+
+// anchors carrying merge tags, aliased by several services of an override file
+const corpusAnchorTagsBase = `
+services:
+  api: {image: api, ports: ["8080:80"], environment: {A: "1"}, command: [base]}
+  web: {image: web, ports: ["8081:81"], environment: {A: "1"}, command: [base]}
+  job: {image: job, ports: ["8082:82"], environment: {A: "1"}, command: [base]}
+`
+const corpusAnchorTagsOver = `
+x-ports: &ports !override ["9090:90"]
+x-common: &common
+  environment: !override {B: "2"}
+  command: !reset null
+services:
+  api:
+    ports: *ports
+    <<: *common
+  web:
+    ports: *ports
+    <<: *common
+  job:
+    <<: *common
+`
+
 // deprecated spellings that the loader still accepts (and warns about once)
 const corpusLegacy = `
 version: "3.8"
@@ -748,6 +801,8 @@ func CorpusScns() map[string]*Scn {
 		"odd-names":     {Files: files("compose.yaml", corpusOddNames, "s", "sec"), Main: []string{"compose.yaml"}, Env: map[string]string{"DBPW": "CANARY-dbpw"}},
 		"kv-shapes":     {Files: files("compose.yaml", corpusKVShapes), Main: []string{"compose.yaml"}, Env: map[string]string{"EMPTY": "env-empty", "BARE": "env-bare", "SET": "env-set"}},
 		"env-chain":     {Files: files("compose.yaml", corpusEnvChain, "a.env", "HOST=host-a\n", "b.env", "HOST=host-b\n", "shared.env", "URL=http://${HOST}/\nPLAIN=p\n"), Main: []string{"compose.yaml"}},
+		"restated":      {Files: files("compose.yaml", corpusRestated, "s", "sec", "e.env", "E=1\n"), Main: []string{"compose.yaml"}},
+		"anchor-tags":   {Files: files("compose.yaml", corpusAnchorTagsBase, "over.yaml", corpusAnchorTagsOver), Main: []string{"compose.yaml", "over.yaml"}},
 		"legacy":        {Files: files("compose.yaml", corpusLegacy), Main: []string{"compose.yaml"}},
 		"operators":     {Files: files("compose.yaml", corpusOperators), Main: []string{"compose.yaml"}, Env: map[string]string{"SET": "set", "EMPTY": ""}},
 		"profiles":      {Files: files("compose.yaml", corpusProfiles), Main: []string{"compose.yaml"}},
